@@ -48,9 +48,11 @@ func (c *ConfigReceiver) Derive(adjust curve.Scalar, newChainKey []byte) (*Confi
 
 	adjustG := adjust.ActOnBase()
 
+	// The secret key is the sum of the two parties' shares, so exactly one of them must apply the
+	// adjustment: the sender adds it to its share, the receiver keeps its share as it is.
 	return &ConfigReceiver{
 		Setup:       c.Setup,
-		SecretShare: c.SecretShare.Curve().NewScalar().Set(c.SecretShare).Add(adjust),
+		SecretShare: c.SecretShare.Curve().NewScalar().Set(c.SecretShare),
 		Public:      c.Public.Add(adjustG),
 	}, nil
 }
